@@ -14,6 +14,12 @@ package main
 //           look-ups and byteslicepool cycles.
 //   pool    byteslicepool Put(stale) / Get / append cycle.
 //   reg     sequential NewLogger look-ups with equal / distinct names.
+//   cronseq sequences of cron.ParseStandard calls (descriptors, aliases, CRON_TZ/TZ prefixes) keeping
+//           every schedule: each must still evaluate as it did right after its own parse.
+//   regrace several goroutines look up the SAME fresh logger names behind a spin barrier (many
+//           rounds; some names pre-registered, some goroutines asking for a second fresh name), then
+//           the names again sequentially: all instances for one name must be one object, and options
+//           applied through the registry (ApplyOptionsToLoggers) must reach every instance returned.
 //   race    (supporting test) the conc mode rebuilt with -race and run as a child process.
 
 import (
@@ -29,6 +35,7 @@ import (
 	"runtime/debug"
 	"strings"
 	"sync"
+	"sync/atomic"
 	"time"
 
 	"github.com/dapr/kit/byteslicepool"
@@ -427,21 +434,67 @@ func c08Reg(ctx *core.Ctx, in c08Input) {
 // concurrent mode
 
 var cronSpecs = []string{"* * * * *", "*/5 1-3 * * *", "0 0 1 1 *", "15,45 */2 * 6 1-5", "@hourly", "@every 90s",
-	"5 4 * * sun", "0 22 * * 1-5", "23 0-20/2 * * *", "@daily", "bad spec", "61 * * * *"}
+	"5 4 * * sun", "0 22 * * 1-5", "23 0-20/2 * * *", "@daily", "bad spec", "61 * * * *",
+	// the same descriptors / fields under different time zones: schedules must stay independent
+	"CRON_TZ=Asia/Tokyo @daily", "TZ=America/New_York @midnight", "CRON_TZ=Europe/Rome @hourly", "@yearly",
+	"TZ=Asia/Tokyo @annually", "CRON_TZ=UTC 0 0 * * *", "@weekly", "CRON_TZ=America/New_York @weekly", "@monthly",
+	"TZ=Europe/Rome @monthly", "CRON_TZ=Asia/Tokyo 30 4 * * *", "@midnight"}
+
+func cronEval(s cron.Schedule) string {
+	t := time.Date(2024, 2, 28, 23, 59, 30, 0, time.UTC)
+	var sb strings.Builder
+	for i := 0; i < 4; i++ {
+		t = s.Next(t)
+		sb.WriteString(t.UTC().Format(time.RFC3339))
+		sb.WriteByte(';')
+	}
+	return sb.String()
+}
 
 func cronResult(spec string) string {
 	s, err := cron.ParseStandard(spec)
 	if err != nil {
 		return "err"
 	}
-	t := time.Date(2024, 2, 28, 23, 59, 30, 0, time.UTC)
-	var sb strings.Builder
-	for i := 0; i < 4; i++ {
-		t = s.Next(t)
-		sb.WriteString(t.Format(time.RFC3339))
-		sb.WriteByte(';')
+	return cronEval(s)
+}
+
+// c08CronSeq: parse a sequence of specs keeping every schedule; each schedule, evaluated after ALL
+// parses, must still give what it gave right after its own parse (and what the spec gives alone).
+func c08CronSeq(ctx *core.Ctx, in c08Input) {
+	type kept struct {
+		s     cron.Schedule
+		first string
 	}
-	return sb.String()
+	ks := make([]kept, len(in.Names))
+	for i, n := range in.Names {
+		spec := cronSpecs[n%len(cronSpecs)]
+		s, err := cron.ParseStandard(spec)
+		if err != nil {
+			ks[i] = kept{nil, "err"}
+			continue
+		}
+		ks[i] = kept{s, cronEval(s)}
+	}
+	classes := make([]string, len(ks))
+	var notes []string
+	for i, k := range ks {
+		classes[i] = "Same"
+		if k.s != nil {
+			if again := cronEval(k.s); again != k.first {
+				classes[i] = "Differs"
+				notes = append(notes, fmt.Sprintf("schedule %d (%q) changed after later parses: %s -> %s", i, cronSpecs[in.Names[i]%len(cronSpecs)], k.first, again))
+			}
+		}
+	}
+	c := hx.Case{Kind: "cronseq", Input: hx.MustJSON(in), Facts: map[string]any{},
+		Class: fmt.Sprintf("cronseq/%v", in.Names), Trivial: len(in.Names) < 2,
+		Observed: map[string]any{"classes": classes, "notes": notes}, Coq: "CObs " + coqClasses(classes)}
+	if len(notes) > 0 {
+		c.Note = strings.Join(notes, "; ")
+	}
+	ctx.Sink.Count("kind=cronseq")
+	ctx.Sink.Add(c)
 }
 
 func cryptoResult(seed uint64) string {
@@ -488,6 +541,7 @@ func runConc(in c08Input) concResult {
 		solo   string
 		result string
 		lg     logger.Logger
+		sched  cron.Schedule
 	}
 	r := hx.NewRand(in.Seed)
 	jobs := make([][]job, W)
@@ -542,7 +596,11 @@ func runConc(in c08Input) concResult {
 				case 0:
 					j.result, _, _ = runPipe(j.pipe, nil, nil)
 				case 1:
-					j.result = cronResult(j.spec)
+					if sc, err := cron.ParseStandard(j.spec); err != nil {
+						j.result = "err"
+					} else {
+						j.sched, j.result = sc, cronEval(sc)
+					}
 				case 2:
 					j.result = cryptoResult(j.seed)
 				case 3:
@@ -561,6 +619,15 @@ func runConc(in c08Input) concResult {
 						j.result = "Differs"
 					}
 					shared.Put(s)
+				}
+			}
+			// the schedules this worker kept must still be what they were
+			for k := range jobs[w] {
+				j := &jobs[w][k]
+				if j.kind == 1 && j.sched != nil {
+					if again := cronEval(j.sched); again != j.result {
+						j.result = "changed:" + j.result + "->" + again
+					}
 				}
 			}
 		}(w)
@@ -619,6 +686,148 @@ func c08Conc(ctx *core.Ctx, in c08Input) {
 }
 
 // ---------------------------------------------------------------------------------------
+// registry races: overlapping FIRST look-ups of one name
+
+type regPair struct {
+	name int
+	lg   logger.Logger
+}
+
+var regRaceRun atomic.Int64
+
+// regRaceBatch runs `rounds` rounds; returns the distinct (name, instance) pairs in order of
+// first appearance (barrier look-ups first, then the sequential look-up of the same name).
+func regRaceBatch(seed uint64, workers, rounds int) (pairs []regPair) {
+	// overlap needs parallelism: with fewer Ps than goroutines the kernel's time slicing of the
+	// extra threads still gives it
+	if prev := runtime.GOMAXPROCS(0); prev < 8 {
+		runtime.GOMAXPROCS(8)
+		defer runtime.GOMAXPROCS(prev)
+	}
+	r := hx.NewRand(seed)
+	run := regRaceRun.Add(1)
+	nameOf := func(n int) string { return fmt.Sprintf("c08rr/%d/%d/%d", seed, run, n) }
+	for round := 0; round < rounds; round++ {
+		w := r.Range(2, workers)
+		n0, n1 := 2*round, 2*round+1
+		if r.Chance(1, 5) {
+			logger.NewLogger(nameOf(n0)) // sibling class: the name already exists
+		}
+		second := r.Chance(1, 3) // a few workers ask for a second fresh name at the same time
+		stagger := r.Chance(1, 3)
+		got := make([]regPair, w)
+		var ready atomic.Int32
+		var wg sync.WaitGroup
+		for i := 0; i < w; i++ {
+			n := n0
+			if second && i%3 == 2 {
+				n = n1
+			}
+			spins := 0
+			if stagger {
+				spins = r.Intn(4)
+			}
+			wg.Add(1)
+			go func(i, n, spins int) {
+				defer wg.Done()
+				name := nameOf(n)
+				ready.Add(1)
+				for ready.Load() < int32(w) {
+					runtime.Gosched()
+				}
+				for k := 0; k < spins; k++ {
+					runtime.Gosched()
+				}
+				got[i] = regPair{n, logger.NewLogger(name)}
+			}(i, n, spins)
+		}
+		wg.Wait()
+		got = append(got, regPair{n0, logger.NewLogger(nameOf(n0))})
+		if second {
+			got = append(got, regPair{n1, logger.NewLogger(nameOf(n1))})
+		}
+		seen := map[regPair]bool{}
+		for _, p := range got {
+			if !seen[p] {
+				seen[p] = true
+				pairs = append(pairs, p)
+			}
+		}
+	}
+	return pairs
+}
+
+// regReached: apply a level through the registry and ask every distinct instance whether it took it.
+func regReached(pairs []regPair) []bool {
+	var distinct []logger.Logger
+	seen := map[logger.Logger]bool{}
+	for _, p := range pairs {
+		if !seen[p.lg] {
+			seen[p.lg] = true
+			distinct = append(distinct, p.lg)
+		}
+	}
+	reached := make([]bool, len(distinct))
+	opts := logger.DefaultOptions()
+	_ = opts.SetOutputLevel("error")
+	_ = logger.ApplyOptionsToLoggers(&opts)
+	for i, l := range distinct {
+		reached[i] = !l.IsOutputLevelEnabled(logger.InfoLevel)
+	}
+	_ = opts.SetOutputLevel("debug")
+	_ = logger.ApplyOptionsToLoggers(&opts)
+	for i, l := range distinct {
+		reached[i] = reached[i] && l.IsOutputLevelEnabled(logger.DebugLevel)
+	}
+	def := logger.DefaultOptions()
+	_ = logger.ApplyOptionsToLoggers(&def)
+	return reached
+}
+
+func regRaceOK(pairs []regPair, reached []bool) bool {
+	byName := map[int]logger.Logger{}
+	for _, p := range pairs {
+		if l, ok := byName[p.name]; ok && l != p.lg {
+			return false
+		}
+		byName[p.name] = p.lg
+	}
+	for _, b := range reached {
+		if !b {
+			return false
+		}
+	}
+	return true
+}
+
+func c08RegRace(ctx *core.Ctx, in c08Input) {
+	pairs := regRaceBatch(in.Seed, in.Workers, in.Rounds)
+	reached := regReached(pairs)
+	names := make([]int, len(pairs))
+	ls := make([]logger.Logger, len(pairs))
+	for i, p := range pairs {
+		names[i], ls[i] = p.name, p.lg
+	}
+	bs := make([]string, len(reached))
+	orphans := 0
+	for i, b := range reached {
+		bs[i] = hx.CoqBool(b)
+		if !b {
+			orphans++
+		}
+	}
+	c := hx.Case{Kind: "regrace", Input: hx.MustJSON(in), Facts: map[string]any{},
+		Class: fmt.Sprintf("regrace/%d/%d/%d", in.Workers, in.Rounds, in.Seed), Trivial: in.Workers < 2,
+		Observed: map[string]any{"pairs": len(pairs), "loggers": len(reached), "not_reached_by_registry": orphans},
+		Coq:      fmt.Sprintf("CRegApply %s %s", regObs(names, ls), hx.CoqList(bs))}
+	if !regRaceOK(pairs, reached) {
+		c.Note = fmt.Sprintf("%d distinct (name, logger) pairs for fewer names / %d logger(s) not reached by ApplyOptionsToLoggers", len(pairs), orphans)
+	}
+	ctx.Sink.Count("kind=regrace")
+	ctx.Sink.Add(c)
+}
+
+// ---------------------------------------------------------------------------------------
 // supporting test: the concurrent mode under the race detector (child process)
 
 func raceChild() {
@@ -633,6 +842,11 @@ func raceChild() {
 				fmt.Fprintln(os.Stderr, "result mismatch under -race:", res.notes)
 				os.Exit(3)
 			}
+		}
+		pairs := regRaceBatch(seed+uint64(i), 12, 150)
+		if !regRaceOK(pairs, regReached(pairs)) {
+			fmt.Fprintln(os.Stderr, "registry handed out two loggers for one name / an orphan logger under -race")
+			os.Exit(3)
 		}
 	}
 	os.Exit(0)
@@ -689,6 +903,10 @@ func c08Run(ctx *core.Ctx, in c08Input) {
 		c08Reg(ctx, in)
 	case "conc":
 		c08Conc(ctx, in)
+	case "regrace":
+		c08RegRace(ctx, in)
+	case "cronseq":
+		c08CronSeq(ctx, in)
 	case "race":
 		c08Race(ctx)
 	default:
@@ -788,6 +1006,21 @@ func c08Gen(ctx *core.Ctx) {
 	}
 	for k := 0; k < 6*mult; k++ {
 		c08Run(ctx, c08Input{Kind: "conc", Workers: r.Range(4, 12), Rounds: r.Range(15, 40), Seed: r.U64()})
+	}
+	// sequences of ParseStandard calls over descriptors / aliases / time zones, schedules kept
+	for k := 0; k < 30*mult; k++ {
+		names := make([]int, r.Range(2, 10))
+		for i := range names {
+			names[i] = r.Intn(len(cronSpecs))
+			if r.Chance(1, 2) {
+				names[i] = 12 + r.Intn(len(cronSpecs)-12)
+			}
+		}
+		c08Run(ctx, c08Input{Kind: "cronseq", Names: names})
+	}
+	// overlapping first look-ups of one name: batches of rounds, 2..16 goroutines behind a barrier
+	for k := 0; k < 40*mult; k++ {
+		c08Run(ctx, c08Input{Kind: "regrace", Workers: []int{2, 4, 8, 16}[k%4], Rounds: 100, Seed: r.U64()})
 	}
 	if ctx.Thorough || os.Getenv("C08_RACE") != "0" {
 		c08Run(ctx, c08Input{Kind: "race"})
